@@ -76,6 +76,13 @@ def iter_state_machine(run, ctx, fn_suffix, label):
             continue
         arm = arms[0].b
         after = p.events[cs[0]:]
+        mo_ = re.match(r"^Ok\(([a-z_]\w*)\)$", arm or "")
+        if mo_:
+            # the Option inside Ok(..) is decided by a later `match` / `if let` / `let .. else` on the bound variable
+            for i_, kind_, bound_ in S.opt_outcomes(p, mo_.group(1)):
+                if i_ > cs[0]:
+                    arm = "Ok(None)" if kind_ == "none" else "Ok(%s)" % (bound_ if (bound_ or "").startswith("Some(") else "Some(_)")
+                    break
         if arm.startswith("Err("):
             # O2: error poisons the iterator and is yielded
             n_ob += 1
